@@ -776,6 +776,17 @@ func (e *Env) call(ex *Expr) Value {
 		return Scalar{sz}
 	case "kindlit":
 		return Scalar{e.x.decls.Const("lit_E_uint_"+fmt.Sprint(args[0].Int), "E_uint")}
+	case "unboxslice":
+		// unboxslice("float64", x): the []float64 held by interface value x
+		bt, ok := basicByName[args[0].Name]
+		if !ok {
+			e.fail("unboxslice: unknown element type %q", args[0].Name)
+		}
+		iv, ok := e.eval(args[1]).(IfaceV)
+		if !ok {
+			e.fail("unboxslice of non-interface")
+		}
+		return e.x.unbox(e.st, types.NewSlice(bt), iv.Val)
 	case "unbox":
 		// unbox("int8", x): the dynamic value of interface x read as the given type
 		bt, ok := basicByName[args[0].Name]
